@@ -15,7 +15,7 @@ func init() {
 // ---- C06 -------------------------------------------------------------------------
 
 func runC06(r *Runner, g *Gen, tier string) string {
-	n := scale(tier, 3000, 150000)
+	n := scale(tier, 3000, 450000)
 	for i := 0; i < n; i++ {
 		cfg := g.pickCfg()
 		t := g.topType(2)
@@ -94,7 +94,7 @@ func (g *Gen) ifaceShaped() *TyDef {
 // ---- C10 -------------------------------------------------------------------------
 
 func runC10(r *Runner, g *Gen, tier string) string {
-	n := scale(tier, 3000, 150000)
+	n := scale(tier, 3000, 450000)
 	for i := 0; i < n; i++ {
 		cfg := g.pickCfg()
 		t := g.topType(2)
@@ -350,7 +350,7 @@ func (g *Gen) evolveType(t *TyDef, depth int) *TyDef {
 }
 
 func runC03(r *Runner, g *Gen, tier string) string {
-	n := scale(tier, 3000, 150000)
+	n := scale(tier, 3000, 450000)
 	for i := 0; i < n; i++ {
 		cfg := g.pickCfg()
 		s := g.structType(3)
